@@ -44,7 +44,7 @@ ASAN_FLAGS = [
 ]
 # memory-safety subset of UBSan only (see DESIGN.md section 2)
 UBSAN_FLAGS = ["-fsanitize=bounds,null,return,unreachable", "-fno-sanitize-recover=undefined"]
-ASAN_ENV = "halt_on_error=0:detect_leaks=1:allocator_may_return_null=1:abort_on_error=0:exitcode=0"
+ASAN_ENV = "handle_segv=0:handle_abort=0:handle_sigfpe=0:handle_sigbus=0:handle_sigill=0:halt_on_error=0:detect_leaks=1:allocator_may_return_null=1:abort_on_error=0:exitcode=0"
 
 
 class HarnessError(Exception):
@@ -213,6 +213,11 @@ class Ctx:
                 self.note(rec["v"])
             elif t_ == "cap":
                 self.cap(rec["v"])
+            elif t_ == "crashed":
+                # the harness attributed a hard crash to the step it was executing (reported as a violation just before)
+                done = True
+                self.cap("%s %s: run ended by %s, attributed to the reported step; the rest of the space was not explored" % (tag or os.path.basename(binary), " ".join(args)[:120], rec.get("v")))
+                allow_rc = tuple(allow_rc) + (3,)
             elif t_ == "done":
                 done = True
         if not done or r.returncode not in allow_rc:
